@@ -583,10 +583,15 @@ def remap_by_types(
             ):
                 # `Select(f=lambda ...)`
                 lambda_keyword = call_node.keywords[0]
-                r = call_method(
-                    **{lambda_keyword.arg: lambda_keyword.value},  # type: ignore
-                    known_types=self._found_types,
-                )
+                if lambda_keyword.arg in inspect.signature(call_method).parameters:
+                    r = call_method(
+                        **{lambda_keyword.arg: lambda_keyword.value},  # type: ignore
+                        known_types=self._found_types,
+                    )
+                else:
+                    # The keyword of the model's own declaration of the operator
+                    # (`def Where(self, test: ...)`): it is the one argument there is.
+                    r = call_method(lambda_keyword.value, known_types=self._found_types)
             else:
                 return None
 
